@@ -58,11 +58,13 @@ struct RT {
     static X lo()
     {
         if constexpr (elastic) return cnl::numbers::signedness_v<Rep> ? -(xpow2(cnl::digits_v<Rep>) - X::from_u(1)) : X();
+        else if constexpr (!builtin) return deepval(std::numeric_limits<Rep>::lowest());
         else return xmin<base>();
     }
     static X hi()
     {
         if constexpr (elastic) return xpow2(cnl::digits_v<Rep>) - X::from_u(1);
+        else if constexpr (!builtin) return deepval(std::numeric_limits<Rep>::max());
         else return xmax<base>();
     }
     static std::vector<X> values(Rng& rng, size_t& ndistinct, long nrand, int max_exh_bits = 8)
